@@ -182,7 +182,18 @@ pub fn solve_milp_lp_problem_with(
         solve_options.time_limit = Some(limit);
     }
 
-    match problem.solve_with(solve_options) {
+    // microlp asserts internal invariants with `expect`; extreme coefficients (around
+    // f64::MAX) make one of them fail inside the branch and bound. A solver failure
+    // must reach the caller as an error, not as a panic of the whole program.
+    let solved = std::panic::catch_unwind(std::panic::AssertUnwindSafe(|| {
+        problem.solve_with(solve_options)
+    }))
+    .unwrap_or_else(|_| {
+        Err(Error::InternalError(
+            "the MILP search failed an internal check (numerically extreme model)".to_string(),
+        ))
+    });
+    match solved {
         Ok(s) => {
             // a limit (time, MIP gap) can stop the search early: only a proven
             // optimum may be labelled optimal, an incumbent is merely feasible and
